@@ -29,8 +29,8 @@ pub fn init_error(interp: &mut Interpreter) {
     let eval_error_key = PropertyKey::String(interp.intern("EvalError"));
     {
         let mut p = error_proto.borrow_mut();
-        p.set_property(name_key.clone(), JsValue::String(JsString::from("Error")));
-        p.set_property(message_key.clone(), JsValue::String(JsString::from("")));
+        p.define_builtin_property(name_key.clone(), JsValue::String(JsString::from("Error")));
+        p.define_builtin_property(message_key.clone(), JsValue::String(JsString::from("")));
     }
 
     // Add toString method to Error.prototype
@@ -48,7 +48,7 @@ pub fn init_error(interp: &mut Interpreter) {
     // Set constructor property on Error.prototype
     error_proto
         .borrow_mut()
-        .set_property(constructor_key.clone(), JsValue::Object(error_fn.clone()));
+        .define_builtin_property(constructor_key.clone(), JsValue::Object(error_fn.clone()));
 
     // Register Error globally
     interp
@@ -60,18 +60,18 @@ pub fn init_error(interp: &mut Interpreter) {
     // TypeError
     {
         let mut p = type_error_proto.borrow_mut();
-        p.set_property(
+        p.define_builtin_property(
             name_key.clone(),
             JsValue::String(JsString::from("TypeError")),
         );
-        p.set_property(message_key.clone(), JsValue::String(JsString::from("")));
+        p.define_builtin_property(message_key.clone(), JsValue::String(JsString::from("")));
     }
     let type_error_fn = interp.create_native_function("TypeError", type_error_constructor, 1);
     interp.root_guard.guard(type_error_fn.clone());
     type_error_fn
         .borrow_mut()
         .set_property(proto_key.clone(), JsValue::Object(type_error_proto.clone()));
-    type_error_proto.borrow_mut().set_property(
+    type_error_proto.borrow_mut().define_builtin_property(
         constructor_key.clone(),
         JsValue::Object(type_error_fn.clone()),
     );
@@ -83,11 +83,11 @@ pub fn init_error(interp: &mut Interpreter) {
     // ReferenceError
     {
         let mut p = reference_error_proto.borrow_mut();
-        p.set_property(
+        p.define_builtin_property(
             name_key.clone(),
             JsValue::String(JsString::from("ReferenceError")),
         );
-        p.set_property(message_key.clone(), JsValue::String(JsString::from("")));
+        p.define_builtin_property(message_key.clone(), JsValue::String(JsString::from("")));
     }
     let reference_error_fn =
         interp.create_native_function("ReferenceError", reference_error_constructor, 1);
@@ -96,7 +96,7 @@ pub fn init_error(interp: &mut Interpreter) {
         proto_key.clone(),
         JsValue::Object(reference_error_proto.clone()),
     );
-    reference_error_proto.borrow_mut().set_property(
+    reference_error_proto.borrow_mut().define_builtin_property(
         constructor_key.clone(),
         JsValue::Object(reference_error_fn.clone()),
     );
@@ -108,11 +108,11 @@ pub fn init_error(interp: &mut Interpreter) {
     // RangeError
     {
         let mut p = range_error_proto.borrow_mut();
-        p.set_property(
+        p.define_builtin_property(
             name_key.clone(),
             JsValue::String(JsString::from("RangeError")),
         );
-        p.set_property(message_key.clone(), JsValue::String(JsString::from("")));
+        p.define_builtin_property(message_key.clone(), JsValue::String(JsString::from("")));
     }
     let range_error_fn = interp.create_native_function("RangeError", range_error_constructor, 1);
     interp.root_guard.guard(range_error_fn.clone());
@@ -120,7 +120,7 @@ pub fn init_error(interp: &mut Interpreter) {
         proto_key.clone(),
         JsValue::Object(range_error_proto.clone()),
     );
-    range_error_proto.borrow_mut().set_property(
+    range_error_proto.borrow_mut().define_builtin_property(
         constructor_key.clone(),
         JsValue::Object(range_error_fn.clone()),
     );
@@ -132,11 +132,11 @@ pub fn init_error(interp: &mut Interpreter) {
     // SyntaxError
     {
         let mut p = syntax_error_proto.borrow_mut();
-        p.set_property(
+        p.define_builtin_property(
             name_key.clone(),
             JsValue::String(JsString::from("SyntaxError")),
         );
-        p.set_property(message_key.clone(), JsValue::String(JsString::from("")));
+        p.define_builtin_property(message_key.clone(), JsValue::String(JsString::from("")));
     }
     let syntax_error_fn = interp.create_native_function("SyntaxError", syntax_error_constructor, 1);
     interp.root_guard.guard(syntax_error_fn.clone());
@@ -144,7 +144,7 @@ pub fn init_error(interp: &mut Interpreter) {
         proto_key.clone(),
         JsValue::Object(syntax_error_proto.clone()),
     );
-    syntax_error_proto.borrow_mut().set_property(
+    syntax_error_proto.borrow_mut().define_builtin_property(
         constructor_key.clone(),
         JsValue::Object(syntax_error_fn.clone()),
     );
@@ -158,18 +158,18 @@ pub fn init_error(interp: &mut Interpreter) {
     uri_error_proto.borrow_mut().prototype = Some(interp.error_prototype.clone());
     {
         let mut p = uri_error_proto.borrow_mut();
-        p.set_property(
+        p.define_builtin_property(
             name_key.clone(),
             JsValue::String(JsString::from("URIError")),
         );
-        p.set_property(message_key.clone(), JsValue::String(JsString::from("")));
+        p.define_builtin_property(message_key.clone(), JsValue::String(JsString::from("")));
     }
     let uri_error_fn = interp.create_native_function("URIError", uri_error_constructor, 1);
     interp.root_guard.guard(uri_error_fn.clone());
     uri_error_fn
         .borrow_mut()
         .set_property(proto_key.clone(), JsValue::Object(uri_error_proto.clone()));
-    uri_error_proto.borrow_mut().set_property(
+    uri_error_proto.borrow_mut().define_builtin_property(
         constructor_key.clone(),
         JsValue::Object(uri_error_fn.clone()),
     );
@@ -183,8 +183,8 @@ pub fn init_error(interp: &mut Interpreter) {
     eval_error_proto.borrow_mut().prototype = Some(interp.error_prototype.clone());
     {
         let mut p = eval_error_proto.borrow_mut();
-        p.set_property(name_key, JsValue::String(JsString::from("EvalError")));
-        p.set_property(message_key, JsValue::String(JsString::from("")));
+        p.define_builtin_property(name_key, JsValue::String(JsString::from("EvalError")));
+        p.define_builtin_property(message_key, JsValue::String(JsString::from("")));
     }
     let eval_error_fn = interp.create_native_function("EvalError", eval_error_constructor, 1);
     interp.root_guard.guard(eval_error_fn.clone());
@@ -193,7 +193,7 @@ pub fn init_error(interp: &mut Interpreter) {
         .set_property(proto_key, JsValue::Object(eval_error_proto.clone()));
     eval_error_proto
         .borrow_mut()
-        .set_property(constructor_key, JsValue::Object(eval_error_fn.clone()));
+        .define_builtin_property(constructor_key, JsValue::Object(eval_error_fn.clone()));
     interp
         .global
         .borrow_mut()
@@ -265,9 +265,9 @@ fn initialize_error_on_this(
     let stack_key = interp.property_key("stack");
 
     let mut obj_ref = obj.borrow_mut();
-    obj_ref.set_property(name_key, JsValue::String(JsString::from(name)));
-    obj_ref.set_property(message_key, JsValue::String(msg_str.clone()));
-    obj_ref.set_property(stack_key, JsValue::String(stack));
+    obj_ref.define_builtin_property(name_key, JsValue::String(JsString::from(name)));
+    obj_ref.define_builtin_property(message_key, JsValue::String(msg_str.clone()));
+    obj_ref.define_builtin_property(stack_key, JsValue::String(stack));
 }
 
 /// Error constructor - sets name and message on `this`
@@ -449,8 +449,8 @@ pub fn create_error_object(
 
     {
         let mut obj = error_obj.borrow_mut();
-        obj.set_property(name_key, JsValue::String(JsString::from(name)));
-        obj.set_property(message_key, JsValue::String(msg_str));
+        obj.define_builtin_property(name_key, JsValue::String(JsString::from(name)));
+        obj.define_builtin_property(message_key, JsValue::String(msg_str));
         obj.set_property(stack_key, JsValue::String(stack_str));
     }
 
